@@ -31,6 +31,10 @@ pub enum Mode {
     Concurrent,
     /// client writes then drops the stream without shutdown; server reads to EOF
     DropClose,
+    /// the accepting side speaks first: server writes `s_bytes` and shuts down, then reads
+    /// to EOF; the client only reads until EOF and shuts down afterwards (until then the
+    /// handshake ACK is the only packet it ever sent)
+    ServerSpeaksFirst,
 }
 
 #[derive(Clone, Copy, Debug, PartialEq, Eq)]
@@ -243,6 +247,25 @@ async fn client(sh: Rc<Shared>, cfg: TcpCfg, server: SocketAddr) {
         sh.log.borrow_mut().addr_ok = Some(ok);
     }
     match cfg.mode {
+        Mode::ServerSpeaksFirst => {
+            let mut s = s;
+            read_all(&mut s, cfg.reader_buf, &open, |r| {
+                let mut l = sh.log.borrow_mut();
+                match r {
+                    Ok([]) => l.c_eof = true,
+                    Ok(b) => l.c_read.extend_from_slice(b),
+                    Err(e) => l.c_rerr = Some(e),
+                }
+            })
+            .await;
+            let r = s.shutdown().await.map_err(|e| errk(&e));
+            {
+                let mut l = sh.log.borrow_mut();
+                l.c_closed_wr = r.is_ok();
+                l.c_shut = Some(r);
+            }
+            drop(s);
+        }
         Mode::Sequential => {
             let mut s = s;
             let ok = write_pattern(&mut s, &cfg.c_chunks, pat_c, &sh.wgate, |r| {
@@ -351,6 +374,31 @@ async fn server(sh: Rc<Shared>, cfg: TcpCfg, bind: SocketAddr) {
     let s_chunks: Vec<usize> = if cfg.s_bytes == 0 { vec![] } else { vec![cfg.s_bytes] };
     let open = Gate::new_open();
     match cfg.mode {
+        Mode::ServerSpeaksFirst => {
+            let mut s = s;
+            let ok = write_pattern(&mut s, &s_chunks, pat_s, &open, |r| {
+                let mut l = sh.log.borrow_mut();
+                match r {
+                    Ok(n) => l.s_wrote += n,
+                    Err(e) => l.s_werr = Some(e),
+                }
+            })
+            .await;
+            if ok {
+                let r = s.shutdown().await;
+                sh.log.borrow_mut().s_closed_wr = r.is_ok();
+            }
+            read_all(&mut s, cfg.reader_buf, &sh.rgate, |r| {
+                let mut l = sh.log.borrow_mut();
+                match r {
+                    Ok([]) => l.s_eof = true,
+                    Ok(b) => l.s_read.extend_from_slice(b),
+                    Err(e) => l.s_rerr = Some(e),
+                }
+            })
+            .await;
+            drop(s);
+        }
         Mode::Sequential | Mode::DropClose => {
             let mut s = s;
             read_all(&mut s, cfg.reader_buf, &sh.rgate, |r| {
@@ -601,6 +649,11 @@ impl TcpSys {
             if s.flags.syn && !s.flags.ack {
                 // fresh connection attempt: reset what we know
                 *m = Mon { una: None, wnd: Some(s.window as u32) };
+                return;
+            }
+            if s.flags.syn && s.flags.ack && m.una.is_some() {
+                // a retransmitted SYN-ACK on a connection that is already established at this
+                // end carries nothing new (in particular not a current window)
                 return;
             }
             if s.flags.ack {
